@@ -61,7 +61,9 @@ MapOf(ws) ==      \* function Id -> canonical spelling, last insertion wins
 
 \* MutableDictionary
 MutContains(ws, q) == Id(q) \in DOMAIN MapOf(ws)
-MutExact(ws, q) == Id(q) \in DOMAIN MapOf(ws) /\ MapOf(ws)[Id(q)] = Norm(q)
+\* (both sides normalised since 6e44128: the stored spelling may itself hold a typographic apostrophe; before that repair the normalised query was
+\* compared with the spelling as stored, so a word added with a typographic apostrophe could never be found)
+MutExact(ws, q) == Id(q) \in DOMAIN MapOf(ws) /\ Norm(MapOf(ws)[Id(q)]) = Norm(q)
 MutCanon(ws, q) == IF Id(q) \in DOMAIN MapOf(ws) THEN MapOf(ws)[Id(q)] ELSE <<>>
 MutWords(ws) == {MapOf(ws)[k] : k \in DOMAIN MapOf(ws)}
 
